@@ -12,6 +12,9 @@ package deadline_test
 //	     5 RecvMsg (the handler sends its header only), 6 a UNARY RPC (cc.Invoke) in the middle
 //	     of a response message (the peer is a scripted raw HTTP/2 endpoint that sends response
 //	     headers, the 5-byte prefix announcing 100 bytes and 10 of them, then stalls);
+//	     7 the back-off sleep before a retry (channel with a retry policy for UNAVAILABLE and a
+//	     2*10^8 s back-off; the handler of attempt 1 answers trailers-only UNAVAILABLE; should
+//	     the deadline outlast the back-off, the handler of attempt 2 sends nothing, point 4);
 //	     kind 1 cancel after t ns, 2 let the deadline d ns pass
 //	obs [status code, ns between the context becoming done and the blocked call returning,
 //	     1 iff a handler ran, handler deadline - client deadline (ns), 1 iff the handler's
@@ -36,6 +39,7 @@ import (
 	"golang.org/x/net/http2"
 	"golang.org/x/net/http2/hpack"
 	"google.golang.org/grpc"
+	"google.golang.org/grpc/codes"
 	"google.golang.org/grpc/credentials/insecure"
 	"google.golang.org/grpc/encoding"
 	"google.golang.org/grpc/status"
@@ -91,12 +95,21 @@ func (e *vDeadlineEnv) handler(_ any, stream grpc.ServerStream) error {
 	e.mu.Lock()
 	mode, seen, rel := e.mode, e.seen, e.release
 	e.mu.Unlock()
+	first := false
 	if mode != 9 && seen != nil {
 		seen.mu.Lock()
-		seen.ran = true
-		seen.deadline, seen.hasDl = stream.Context().Deadline()
-		seen.ctx = stream.Context()
+		if !seen.ran {
+			first = true
+			seen.ran = true
+			seen.deadline, seen.hasDl = stream.Context().Deadline()
+			seen.ctx = stream.Context()
+		}
 		seen.mu.Unlock()
+	}
+	if mode == 7 && first {
+		// trailers-only UNAVAILABLE: the client's retry policy backs off before attempt 2
+		// (a later attempt - only when the deadline outlasts the back-off - sends nothing)
+		return status.Error(codes.Unavailable, "verif: retryable failure")
 	}
 	if mode == 5 {
 		stream.SendHeader(nil)
@@ -106,6 +119,15 @@ func (e *vDeadlineEnv) handler(_ any, stream grpc.ServerStream) error {
 }
 
 func vDeadlinePair(env *vDeadlineEnv, opts ...grpc.ServerOption) (*grpc.ClientConn, func()) {
+	return vDeadlinePairSC(env, "", opts...)
+}
+
+// retry policy of channel E (blocking point 7): UNAVAILABLE is retried after a back-off of
+// 2*10^8 s (x 0.8..1.2 jitter), longer than every deadline the generator uses but the 10^8 min one
+const vDeadlineRetrySC = `{"methodConfig":[{"name":[{"service":"verif.S"}],"retryPolicy":{"maxAttempts":3,` +
+	`"initialBackoff":"200000000s","maxBackoff":"200000000s","backoffMultiplier":1,"retryableStatusCodes":["UNAVAILABLE"]}}]}`
+
+func vDeadlinePairSC(env *vDeadlineEnv, sc string, opts ...grpc.ServerOption) (*grpc.ClientConn, func()) {
 	lis := &vDeadlineLis{ch: make(chan net.Conn), done: make(chan struct{})}
 	srv := grpc.NewServer(append(opts, grpc.UnknownServiceHandler(env.handler))...)
 	go srv.Serve(lis)
@@ -120,7 +142,11 @@ func vDeadlinePair(env *vDeadlineEnv, opts ...grpc.ServerOption) (*grpc.ClientCo
 			return nil, ctx.Err()
 		}
 	}
-	cc, err := grpc.NewClient("passthrough:///verif", grpc.WithTransportCredentials(insecure.NewCredentials()), grpc.WithContextDialer(dialer))
+	dopts := []grpc.DialOption{grpc.WithTransportCredentials(insecure.NewCredentials()), grpc.WithContextDialer(dialer)}
+	if sc != "" {
+		dopts = append(dopts, grpc.WithDefaultServiceConfig(sc))
+	}
+	cc, err := grpc.NewClient("passthrough:///verif", dopts...)
 	if err != nil {
 		panic("verif: NewClient: " + err.Error())
 	}
@@ -212,6 +238,8 @@ func vDeadlineExecIn(ops [][]int64) ([][]int64, bool, []string) {
 	ccA, closeA := vDeadlinePair(env, grpc.StaticStreamWindowSize(65535))
 	// B: one concurrent stream, held for the whole case
 	ccB, closeB := vDeadlinePair(env, grpc.MaxConcurrentStreams(1))
+	// E: retry policy with a very long back-off (blocking point 7)
+	ccE, closeE := vDeadlinePairSC(env, vDeadlineRetrySC)
 	// C: a channel whose dial never completes
 	ccC, err := grpc.NewClient("passthrough:///never", grpc.WithTransportCredentials(insecure.NewCredentials()),
 		grpc.WithContextDialer(func(ctx context.Context, _ string) (net.Conn, error) { <-ctx.Done(); return nil, ctx.Err() }))
@@ -250,13 +278,14 @@ func vDeadlineExecIn(ops [][]int64) ([][]int64, bool, []string) {
 		ccD.Close()
 		closeA()
 		closeB()
+		closeE()
 		synctest.Wait()
 	}()
 
 	var out [][]int64
 	points := map[int64]bool{}
 	for _, op := range ops {
-		if len(op) != 4 || op[0] < 1 || op[0] > 6 || (op[1] != 1 && op[1] != 2) || op[2] <= 0 || op[2] >= op[3] {
+		if len(op) != 4 || op[0] < 1 || op[0] > 7 || (op[1] != 1 && op[1] != 2) || op[2] <= 0 || op[2] >= op[3] {
 			continue
 		}
 		point, kind, t, d := op[0], op[1], time.Duration(op[2]), time.Duration(op[3])
@@ -280,6 +309,8 @@ func vDeadlineExecIn(ops [][]int64) ([][]int64, bool, []string) {
 				cc = ccC
 			case 2:
 				cc = ccB
+			case 7:
+				cc = ccE
 			}
 			if point == 6 {
 				var req, resp []byte
@@ -380,7 +411,7 @@ func vDeadlineGen(r *vRand, tier string, idx int) ([]int64, [][]int64) {
 	// exact).  The last two only with a cancellation (the virtual clock cannot run that far).
 	tens := []int64{100000000, 100000000000, 100000000000000, 100000000000000000, 6000000000000000000}
 	if idx == 0 {
-		for p := int64(1); p <= 6; p++ {
+		for p := int64(1); p <= 7; p++ {
 			for k := int64(1); k <= 2; k++ {
 				ops = append(ops, []int64{p, k, 1000000, ds[(p+k)%int64(len(ds))]})
 			}
@@ -389,7 +420,7 @@ func vDeadlineGen(r *vRand, tier string, idx int) ([]int64, [][]int64) {
 	}
 	if idx == 1 {
 		for i, d := range tens {
-			for p := int64(3); p <= 6; p++ {
+			for p := int64(3); p <= 7; p++ {
 				k := int64(2)
 				if i >= 3 || (int64(i)+p)%3 == 0 {
 					k = 1
@@ -413,7 +444,7 @@ func vDeadlineGen(r *vRand, tier string, idx int) ([]int64, [][]int64) {
 			}
 		}
 		t := 1 + r.I64n(min(d-1, 20000000))
-		ops = append(ops, []int64{int64(1 + r.Intn(6)), k, t, d})
+		ops = append(ops, []int64{int64(1 + r.Intn(7)), k, t, d})
 	}
 	return nil, ops
 }
